@@ -870,3 +870,120 @@ Definition step9 (q : q9) (a : action) : option q9 :=
 Definition init9 (cup : option N) (apps : list app) (st : storage) : q9 :=
   {| cup9 := match cup with Some _ => true | None => false end; in9 := false;
      apps9 := map (app_load (pend st)) apps; todo9 := [] |}.
+
+(* ------------------------------------------------------------------ C08 *)
+(* The monitor keeps the two bookkeeping values as they must be: the consecutive-failure count (reset by a successful
+   check or ping, incremented - saturating - by a failed one) and the last-contact time (the clock reading taken when
+   a check ended with an answer from the server - success, unparseable body, unusable plan - or a ping succeeded;
+   untouched otherwise).  It demands that the schedule and protocol state announced with each result carry exactly
+   these values, that the policy is always shown them, and that right after the result they are written (time at
+   microsecond precision, count removed when zero) together with the poll interval and the apps and committed before
+   anything else happens.  pw8: whether a ping can be put on the wire at all (valid service URL and header values); when
+   it cannot, failed pings leave no trace and the count shown to the policy is taken on trust. *)
+Inductive ob8 := ObLU (op : store_op) | ObAnyCtx | ObFails (op : store_op) | ObApps.
+Record q8 := {
+  cup8 : bool; pw8 : bool; in8 : bool;
+  fails8 : Z; lu8 : option pct;
+  clk8 : option ctime;                        (* the latest clock reading *)
+  tsched8 : option (sched * option ctime);    (* schedule announced in this check's tail, and the reading then current *)
+  tps8 : option pstate;                       (* protocol state announced in this check's tail *)
+  pfail8 : option bool;                       (* a ping's outcome not yet reflected in what the policy was shown *)
+  await8 : bool;                              (* a ping succeeded: the next schedule announcement carries the new time *)
+  todo8 : list ob8 }.
+Definition lu_store_op (lu : option pct) : store_op :=
+  match (match lu with Some p => pct_to_micros p | None => None end) with
+  | Some us => SSetInt K_LAST_UPDATE_TIME us
+  | None => SRemove K_LAST_UPDATE_TIME
+  end.
+Definition fails_store_op (f : Z) : store_op := if f =? 0 then SRemove K_FAILED_CHECKS else SSetInt K_FAILED_CHECKS f.
+Definition answered (r : check_err + list app_response) : bool :=
+  match r with inr _ | inl CEResponseParser | inl CEInstallPlan => true | inl (CEOmahaRequest _) => false end.
+Definition fails_after (p : option bool) (f : Z) : Z :=
+  match p with None => f | Some true => 0 | Some false => sat_inc_u32 f end.
+Definition opct_eqb (a b : option pct) : bool := if opct_eq_dec a b then true else false.
+Definition q8_todo (q : q8) (t : list ob8) : q8 :=
+  {| cup8 := cup8 q; pw8 := pw8 q; in8 := in8 q; fails8 := fails8 q; lu8 := lu8 q; clk8 := clk8 q; tsched8 := tsched8 q;
+     tps8 := tps8 q; pfail8 := pfail8 q; await8 := await8 q; todo8 := t |}.
+
+Definition step8 (q : q8) (a : action) : option q8 :=
+  match a with
+  | ARequest _ _ | AReply _ _ | AMetric _ | ATimer _ => Some q
+  | AClock c =>
+      Some {| cup8 := cup8 q; pw8 := pw8 q; in8 := in8 q; fails8 := fails8 q; lu8 := lu8 q; clk8 := Some c; tsched8 := tsched8 q;
+              tps8 := tps8 q; pfail8 := pfail8 q; await8 := await8 q; todo8 := todo8 q |}
+  | AStore op _ =>
+      match todo8 q with
+      | [] => Some q
+      | ObLU x :: rest | ObFails x :: rest => if store_op_eqb op x then Some (q8_todo q rest) else None
+      | ObAnyCtx :: rest => match op with SSetInt _ _ | SRemove _ => Some (q8_todo q rest) | _ => None end
+      | ObApps :: rest => match op with SSetStr _ _ => Some q | SCommit => Some (q8_todo q rest) | _ => None end
+      end
+  | _ =>
+      match todo8 q with
+      | _ :: _ => None
+      | [] =>
+          match a with
+          | AEvent (EvState (CheckingForUpdates _)) =>
+              if in8 q then None
+              else Some {| cup8 := cup8 q; pw8 := pw8 q; in8 := true; fails8 := fails_after (pfail8 q) (fails8 q); lu8 := lu8 q; clk8 := clk8 q;
+                           tsched8 := None; tps8 := None; pfail8 := None; await8 := false; todo8 := [] |}
+          | AEvent (EvSchedule s) =>
+              if in8 q then
+                Some {| cup8 := cup8 q; pw8 := pw8 q; in8 := true; fails8 := fails8 q; lu8 := lu8 q; clk8 := clk8 q;
+                        tsched8 := Some (s, clk8 q); tps8 := None; pfail8 := pfail8 q; await8 := await8 q; todo8 := [] |}
+              else if await8 q then
+                match clk8 q with
+                | Some c => if opct_eqb (s_last_update s) (Some (PComplex c))
+                            then Some {| cup8 := cup8 q; pw8 := pw8 q; in8 := false; fails8 := fails8 q; lu8 := Some (PComplex c); clk8 := clk8 q;
+                                         tsched8 := None; tps8 := None; pfail8 := pfail8 q; await8 := false; todo8 := [] |}
+                            else None
+                | None => None
+                end
+              else if opct_eqb (s_last_update s) (lu8 q) then Some q else None
+          | AEvent (EvProtocol ps) =>
+              if in8 q then
+                match tsched8 q with
+                | Some _ => Some {| cup8 := cup8 q; pw8 := pw8 q; in8 := true; fails8 := fails8 q; lu8 := lu8 q; clk8 := clk8 q;
+                                    tsched8 := tsched8 q; tps8 := Some ps; pfail8 := pfail8 q; await8 := await8 q; todo8 := [] |}
+                | None => if ps_fails ps =? fails8 q then Some q else None
+                end
+              else if negb (pw8 q) || (ps_fails ps =? fails8 q) then Some q else None
+          | AEvent (EvResult r) =>
+              match in8 q, tsched8 q, tps8 q with
+              | true, Some (s, c), Some ps =>
+                  let lu' := if answered r then match c with Some c => Some (PComplex c) | None => None end else lu8 q in
+                  let f' := match r with inr _ => 0 | inl _ => sat_inc_u32 (fails8 q) end in
+                  if opct_eqb (s_last_update s) lu' && (ps_fails ps =? f')
+                  then Some {| cup8 := cup8 q; pw8 := pw8 q; in8 := false; fails8 := f'; lu8 := lu'; clk8 := clk8 q; tsched8 := None; tps8 := None;
+                               pfail8 := None; await8 := false;
+                               todo8 := [ObLU (lu_store_op lu'); ObAnyCtx; ObFails (fails_store_op f'); ObApps] |}
+                  else None
+              | _, _, _ => None
+              end
+          | AHttp _ o =>
+              if in8 q then Some q
+              else
+                let ok := match usable (cup8 q) (Some o) with Some (BDoc _) => true | _ => false end in
+                Some {| cup8 := cup8 q; pw8 := pw8 q; in8 := false; fails8 := fails_after (pfail8 q) (fails8 q); lu8 := lu8 q; clk8 := clk8 q;
+                        tsched8 := None; tps8 := None; pfail8 := Some ok; await8 := ok; todo8 := [] |}
+          | APolicy (QNextTime _ s ps) _ | APolicy (QCheckAllowed _ s ps _) _ =>
+              if in8 q then None
+              else
+                let f' := fails_after (pfail8 q) (fails8 q) in
+                if opct_eqb (s_last_update s) (lu8 q) && (negb (pw8 q) || (ps_fails ps =? f'))
+                then Some {| cup8 := cup8 q; pw8 := pw8 q; in8 := false; fails8 := if pw8 q then f' else ps_fails ps; lu8 := lu8 q; clk8 := clk8 q;
+                             tsched8 := None; tps8 := None; pfail8 := None; await8 := await8 q; todo8 := [] |}
+                else None
+          | _ => Some q
+          end
+      end
+  end.
+
+(* can a ping be put on the wire at all: a valid service URL and header values the http crate accepts *)
+Definition ping_wireable (cfg : config) (url : urlparts) (apps : list app) : bool :=
+  u_valid url && headers_ok cfg (add_ops (builder_new ping_params) (map OpPing apps)).
+Definition init8 (cfg : config) (url : urlparts) (cup : option N) (apps : list app) (st : storage) : q8 :=
+  let '(sc, ps) := ctx_load (pend st) in
+  {| cup8 := match cup with Some _ => true | None => false end; pw8 := ping_wireable cfg url apps; in8 := false;
+     fails8 := ps_fails ps; lu8 := s_last_update sc; clk8 := None; tsched8 := None; tps8 := None; pfail8 := None; await8 := false;
+     todo8 := [] |}.
